@@ -69,6 +69,16 @@ func c16Configs() []*c16Config {
 		out = append(out, &c16Config{name: fmt.Sprintf("whole-circuit#%d/%s", i, []string{"CO", "COT", "COT-malicious"}[otk]), ot: otk, circ: c, x: x, y: y,
 			want: refc.SplitOut(c.Outputs, flat[0]), seed: uint64(7000 + i)})
 	}
+	// a whole-circuit session with more than 64 result bits (90): result
+	// positions beyond one machine word
+	{
+		r := vrt.NewRng(4242)
+		sh := refc.Shape{Args: []int{6, 7}, Outs: []int{70, 20}, Gates: 120, Kind: 2, SameP: 3}
+		c := refc.Gen(r, sh)
+		x, y := big.NewInt(0x2b), big.NewInt(0x55)
+		flat, _ := refc.EvalFlat(c, []*big.Int{refc.Flatten(c.Inputs, []*big.Int{x, y})})
+		out = append(out, &c16Config{name: "whole-circuit#4/CO", ot: 0, circ: c, x: x, y: y, want: refc.SplitOut(c.Outputs, flat[0]), seed: 7004})
+	}
 	// a streaming program whose results repeat wire ids: the same value returned
 	// twice, shifted (constant padding wires) and widened (shared zero wire)
 	{
@@ -185,14 +195,14 @@ func init() {
 	vrt.AuxCmds["c16"] = c16Aux
 	vrt.Register(&vrt.Prop{
 		ID: "C16", Level: "fault_enumeration",
-		Rule: "seven configurations (whole-circuit with CO, COT, COT-malicious on generated 2-3-output circuits; streaming with CO, one program returning repeated wire ids) each have a clean run that fixes the two direction lengths (identical randomness in every session of a configuration); then one session per fault: thorough = EVERY byte offset of both directions with a byte replacement, plus a 2-64 byte random burst at sampled offsets and single-bit flips (all 8 bits of every byte for the CO configurations, one sampled bit at every 5th offset for the OT-extension ones); both tiers add the select bit (top bit of the first byte) of each of the last 64 16-byte units of the evaluator's stream, every bit of the first eight bytes of the first two and last four transport writes (flush units) of each direction (message framing: lengths, counts, opcodes) and, over the tail of the evaluator's stream, the same mask on two bytes 16 apart and constant-mask bursts of 32/64 bytes; quick = a PRNG subset plus a low-bit flip at every offset of the last 160 bytes of the garbler's stream. " +
+		Rule: "eight configurations (whole-circuit with CO, COT, COT-malicious on generated 2-3-output circuits, one with 90 result bits; streaming with CO, one program returning repeated wire ids) each have a clean run that fixes the two direction lengths (identical randomness in every session of a configuration); then one session per fault: thorough = EVERY byte offset of both directions with a byte replacement, plus a 2-64 byte random burst at sampled offsets and single-bit flips (all 8 bits of every byte for the CO configurations, one sampled bit at every 5th offset for the OT-extension ones); both tiers add the select bit (top bit of the first byte) of each of the last 64 16-byte units of the evaluator's stream, every bit of the first eight bytes of the first two and last four transport writes (flush units) of each direction (message framing: lengths, counts, opcodes) and, over the tail of the evaluator's stream, the same mask on two bytes 16 apart and constant-mask bursts of 32/64 bytes; quick = a PRNG subset plus a low-bit flip at every offset of the last 160 bytes of the garbler's stream. " +
 			"Oracle: garbler err == nil implies its result equals the reference evaluation; outcome classes {error, stalled-and-aborted (0.3 s quiescence window), success, garbler-panic} are counted. Non-trivial = the fault landed inside the transcript; distinct = (configuration, direction, offset, kind).",
 		Assumptions: []string{"faults are random replacements in transit, not structured rewrites by an active attacker", "a stall is recognised after 0.3 s of quiescence of both endpoints; it is an allowed outcome"},
 		NumCases: func(t string) int {
 			if t == "thorough" {
-				return 7 * 80
+				return 8 * 80
 			}
-			return 56
+			return 64
 		},
 		MaxWorkers:  16,
 		CaseTimeout: 8 * time.Minute,
